@@ -184,8 +184,29 @@ def reset_hook_actions(actions=None):
     _hook_calls.clear()
 
 
+_LAYER_EXTRA = {}      # layer name -> spec dict (for 'sw' / 'lh')
+_SWAPPED = {}          # layer name -> streams saved by its setUp
+
+
 def _hook_body(lname, hook, faults):
     emit('L', lname, hook, '>')
+    extra = _LAYER_EXTRA.get(lname) or {}
+    if extra.get('sw'):
+        # a layer that runs with a private sys.stdout of its own
+        if hook == 'setUp':
+            _SWAPPED[lname] = sys.stdout
+            sys.stdout = io.StringIO()
+        elif hook == 'tearDown' and lname in _SWAPPED:
+            sys.stdout = _SWAPPED.pop(lname)
+    if extra.get('lh') and hook == 'setUp':
+        # per-test hooks that only exist once the layer has been set up
+        obj = extra['_obj']
+        for hk in extra['lh']:
+            if isinstance(obj, type):
+                # (derived class layers inherit it, like a hook in the body)
+                setattr(obj, hk, _cls_hook(hk, faults))
+            else:
+                setattr(obj, hk, functools.partial(_hook_body, lname, hk, faults))
     if HOOK_ACTIONS:
         k = _hook_calls.get((lname, hook), 0)
         _hook_calls[(lname, hook)] = k + 1
@@ -217,18 +238,24 @@ def make_layers(spec_layers, modname):
         for hk, e in (L.get('f') or {}).items():
             if e:
                 faults[(L['n'], hk)] = e
+    _LAYER_EXTRA.clear()
+    _SWAPPED.clear()
     for L in spec_layers:
         bases = tuple(objs[b] for b in L.get('b') or ())
+        lmod = L.get('m') or modname
+        declared = L.get('hdecl') if 'hdecl' in L else (L.get('h') or ())
         if L.get('k', 'c') == 'c':
-            ns = {'__module__': modname}
-            for hk in L.get('h') or ():
+            ns = {'__module__': lmod}
+            for hk in declared:
                 ns[hk] = _cls_hook(hk, faults)
             objs[L['n']] = type(L['n'], bases or (object,), ns)
         else:
-            o = InstLayer(L['n'], modname, bases)
-            for hk in L.get('h') or ():
+            o = InstLayer(L['n'], lmod, bases)
+            for hk in declared:
                 setattr(o, hk, functools.partial(_hook_body, L['n'], hk, faults))
             objs[L['n']] = o
+        if L.get('sw') or L.get('lh'):
+            _LAYER_EXTRA[L['n']] = dict(L, _obj=objs[L['n']])
     return objs
 
 
@@ -319,7 +346,7 @@ def release_all_threads():
 
 
 def _fd2_default(text):
-    os.write(2, text.encode('utf-8'))
+    os.write(2, text if isinstance(text, bytes) else text.encode('utf-8'))
 
 
 FD2 = _fd2_default    # runrt points this at the (virtual) process's real stderr
@@ -329,6 +356,10 @@ def _do_writes(ws):
     for stream, text, via in ws or ():
         if stream == 'fd2':
             FD2(text)
+            continue
+        if stream == 'fd2b':
+            # raw bytes that are not UTF-8 (a C library, a legacy locale)
+            FD2(text.encode('latin-1'))
             continue
         st = sys.stdout if stream == 'o' else sys.stderr
         if via:
@@ -361,8 +392,13 @@ def _file_action(act):
 class VTCase(unittest.TestCase):
     _vt = None
 
+    _vt_by_method = None
+
     def __init__(self, methodName='runTest'):
         super().__init__(methodName)
+        if self._vt_by_method and methodName in self._vt_by_method:
+            # several tests share this class: each instance has its own spec
+            self._vt = self._vt_by_method[methodName]
         li = self._vt.get('li')
         if li is not None:
             # layer / level declared on the instance, not the class
@@ -370,6 +406,10 @@ class VTCase(unittest.TestCase):
                 self.layer = li['l']
             if 'lv' in li:
                 self.level = li['lv']
+
+    def countTestCases(self):
+        c = self._vt.get('ctc')
+        return super().countTestCases() if c is None else c
 
     def __str__(self):
         sd = self._vt.get('str_die')
@@ -492,6 +532,10 @@ class VTCase(unittest.TestCase):
         if s == 'leave_replaced':
             # a test that replaces sys.stdout and never puts it back
             sys.stdout = io.StringIO()
+            return
+        if s == 'chdir':
+            # a test that changes the working directory and leaves it changed
+            os.chdir('/')
             return
         if s == 'settrace':
             def _tracer(frame, event, arg):
@@ -656,6 +700,22 @@ def build(spec):
             order.append(inst)
             continue
         _resolve_li(t, layers, modname)
+        if t.get('shcls') and t['shcls'] in tests:
+            # a second test object of the class of test t['shcls']
+            cls = type(tests[t['shcls']])
+            mname = 'test_' + t.get('mn', t['n'])
+
+            def method(self):
+                return self._body()
+            method.__name__ = mname
+            setattr(cls, mname, method)
+            if cls._vt_by_method is None:
+                cls._vt_by_method = {}
+            cls._vt_by_method[mname] = t
+            inst = cls(mname)
+            tests[t['n']] = inst
+            order.append(inst)
+            continue
         cls, mname = make_test_class(t, modname, layers)
         inst = cls(mname)
         tests[t['n']] = inst
